@@ -167,6 +167,25 @@ def excl_rules(facts, rep):
     return ok
 
 
+def global_rules(facts, rep):
+    """handles are independent only if nothing is shared *behind* them: a process-global with interior mutability (a cache in a
+    `static Mutex<..>`, a `static mut`, a thread-local or lazily initialised cell) is state every handle reads and writes, whatever the
+    handle types look like (and `Mutex<T>` keeps the Send/Sync assertions green).  The crate's only static is a constant table."""
+    rule = "C20-GLOBAL"
+    ok = True
+    statics = [c for c in facts.raw["consts"] if str(c.get("kind", "")).startswith("static")]
+    MUT = re.compile(r"Mutex|RwLock|Atomic|Cell<|RefCell|OnceCell|OnceLock|LazyLock|Lazy<|LocalKey|UnsafeCell|Condvar|Once\b|mpsc::")
+    for c in statics:
+        bad = c["kind"] != "static" or MUT.search(c.get("ty") or "")
+        ok &= rep.check(not bad, rule, "static:%s" % c["path"], c.get("span", ""), "immutable table of type %s" % c.get("ty"),
+                        "process-global mutable state %s: %s (%s) -- every ZipArchive handle and clone observes writes made through any other" % (c["path"], c.get("ty"), c["kind"]))
+    # thread_local! / lazily initialised statics expand to accessor functions over a hidden static
+    tl = [f.path for f in facts.fns if re.search(r"__getit|::VAL$|LocalKey", f.path)]
+    ok &= rep.check(not tl, rule, "no-thread-locals", "", "no thread-local storage in the crate", "thread-local state: %s" % tl[:3])
+    rep.ok(rule, "census", "", "%d static item(s): %s" % (len(statics), [c["path"] for c in statics]), trivial=True)
+    return ok
+
+
 def run(ctx, rep):
     facts = ctx.facts
     rep.configs.append("default")
@@ -181,5 +200,6 @@ def run(ctx, rep):
     frozen_rules(facts, rep)
     store_rules(facts, rep)
     excl_rules(facts, rep)
+    global_rules(facts, rep)
     rep.assume("each handle has its own cloned reader (readers whose Clone shares a cursor are outside the property)")
     rep.assume("Arc<T>: Send + Sync iff T: Send + Sync (std)")
